@@ -24,8 +24,9 @@ class Scratch:
         shutil.rmtree(self.d, ignore_errors=True)
 
 
-def run(cmd, cwd=None, timeout=600):
-    p = subprocess.run(cmd, cwd=cwd, capture_output=True, text=True, timeout=timeout)
+def run(cmd, cwd=None, timeout=600, env=None):
+    p = subprocess.run(cmd, cwd=cwd, capture_output=True, text=True, timeout=timeout,
+                       env=dict(os.environ, **env) if env else None)
     return p.returncode, p.stdout, p.stderr
 
 
